@@ -121,6 +121,7 @@ def explore(task, src_root, contracts, loop_hooks=None, max_paths=400, timeout_m
     """run the task over all feasible paths; returns (list of discharged Oblig summaries, list of undecided notes, stats)"""
     work = [[]]
     results, undecided = [], []
+    forks = {}
     npaths = 0
     t0 = time.time()
     while work:
@@ -144,11 +145,17 @@ def explore(task, src_root, contracts, loop_hooks=None, max_paths=400, timeout_m
         except RecursionError as e:
             undecided.append(dict(task=task.name, reason="recursion limit", trace=list(ctx.trace)))
         work.extend(ctx.alts)
+        for fid, arm, outc in ctx.fork_outcomes:
+            forks.setdefault(fid, {}).setdefault(arm, set()).add(outc)
         for ob in ctx.obligs:
             discharge(ob, timeout_ms)
             results.append(dict(task=task.name, name=ob.name, result=ob.result, backend=ob.backend, time=round(ob.time, 4),
                                 trace=ob.meta.get("trace", []), meta={k: v for k, v in ob.meta.items() if k != "trace" and isinstance(v, (str, int, float, bool))},
                                 model=ob.model if ob.result == "refuted" else None))
+    for fid, arms in forks.items():
+        if len(arms) == 2 and all("normal" in o for o in arms.values()):
+            undecided.append(dict(task=task.name, reason="OutOfReach: a summarised loop branches on an iteration-dependent test and both arms continue (the FOLD rule does not apply)", trace=[]))
+            break
     return results, undecided, dict(paths=npaths, wall=round(time.time() - t0, 3))
 
 
